@@ -119,9 +119,11 @@ type ConsState struct {
 	Http        *actors.HttpClient
 	Rtsp        *actors.RtspClient
 	Push        *actors.RtmpServerStub // pseudo-consumer: a relay-push target
-	Joined      bool
-	Left        bool
-	Kicked      bool
+	// state of a stalled consumer at the end of the scenario proper (before the harness lets it drain)
+	ClosedAtEnd, BlockedAtEnd bool
+	Joined                    bool
+	Left                      bool
+	Kicked                    bool
 }
 
 func (c *ConsState) JoinDoneStep() int {
@@ -149,6 +151,9 @@ func (c *ConsState) ClosedByLal() bool {
 	}
 	if c.Http != nil {
 		return c.Http.Closed
+	}
+	if c.Rtsp != nil {
+		return c.Rtsp.Closed
 	}
 	return false
 }
